@@ -35,6 +35,9 @@ RULE = ("cases = scenario x allocation index (all indexes the unfailed run perfo
 PROBE = ["allocfail at=-1", "req tok=99 kind=send name=probe.example type=1", "reply tx=-1 kind=noerror an=1 ttl=30",
          "procall", "procall", "reply tx=-1 kind=noerror an=1 ttl=30 mark=9999", "procall"]
 
+HOSTS_FILE = os.path.join(os.path.dirname(os.path.dirname(os.path.dirname(os.path.abspath(__file__)))), "corpus", "C14",
+                          "hosts.scenario")
+
 SCENARIOS = {
     "init+send": ["chan servers=10.0.0.1,10.0.0.2 tries=2 timeout=1000 cache=60 armed=1 domains=example.com,test ndots=1",
                   "req tok=1 kind=send name=www.example.com type=1", "reply tx=-1 kind=noerror an=2 ttl=30,60", "proc r=-1"],
@@ -82,6 +85,14 @@ SCENARIOS = {
                                "reply tx=-2 kind=noerror an=1 ttl=30", "procall",
                                "req tok=3 kind=gai name=a.example fam=0 sort=1", "reply tx=-2 kind=noerror an=2 ttl=30",
                                "reply tx=-1 kind=nodata", "procall"],
+    # lookups answered from the hosts file (loaded inside the first request: entries merged by host name and by address),
+    # a miss that goes on to DNS, a reverse lookup from the file
+    "hostsfile": ["chan servers=10.0.0.1 tries=1 timeout=1000 lookups=fb hosts=" + HOSTS_FILE,
+                  "req tok=1 kind=gai name=multi.test fam=0", "reply tx=-1 kind=nxdomain", "reply tx=-2 kind=nxdomain", "procall",
+                  "req tok=2 kind=ghbn name=alias.test fam=2", "reply tx=-1 kind=nxdomain", "procall",
+                  "req tok=3 kind=ghba name=10.1.2.4", "reply tx=-1 kind=nxdomain", "procall",
+                  "req tok=4 kind=gai name=nothere.test fam=2", "reply tx=-1 kind=nxdomain", "procall",
+                  "req tok=5 kind=ghbn name=other.test fam=2", "reply tx=-1 kind=nxdomain", "procall", "adv 1000", "tick"],
     "hostby": ["chan servers=10.0.0.1 tries=2 timeout=1000",
                "req tok=1 kind=ghbn name=www.example.com fam=2", "reply tx=-1 kind=noerror an=2 ttl=30", "proc r=-1",
                "req tok=2 kind=ghba name=10.1.2.3", "reply tx=-1 kind=noerror an=1 ttl=30", "proc r=-1",
